@@ -42,6 +42,7 @@ def budget(tier):
 
 
 def strategy(tier):
+    N.enable_long_texts(tier == "thorough")
     k = 5 if tier == "quick" else 24
     return st.tuples(N.triple(), st.lists(S.strategy_args(), min_size=k, max_size=k)).map(
         lambda t: {"base": t[0][0], "local": t[0][1], "remote": t[0][2], "shape": t[0][3], "combos": t[1]})
